@@ -793,6 +793,12 @@ Proof.
       eapply vecF_set_wf; eauto. unfold reduce1. destruct l as [|? [|? ?]]; exact I.
     + destruct (Nat.eqb (length l) (length rows * vsize rows)); try discriminate. okinv.
       apply store_wf_set; auto. cbn. apply Forall_wf_of_dense.
+  - (* OConv *)
+    bindinv H. pose proof (getobj_wf _ _ _ Hs E) as Hx.
+    destruct c; [okinv; auto| | |].
+    + okinv. apply store_wf_app; auto. destruct a; cbn in *; auto.
+    + destruct a; try discriminate; okinv; apply store_wf_app; auto; cbn; auto. apply wf_cells_of_bits.
+    + destruct a; try discriminate; okinv; apply store_wf_app; auto; exact I.
 Qed.
 
 Lemma xstep_res_wf s o s' r : store_wf s -> xstep_res false s o = Ok (s', r) -> store_wf s'.
@@ -2367,6 +2373,7 @@ Inductive fop (s : store) : xop -> Prop :=
     Forall (fun r => length r = n) rows -> Forall (fun r => length r = n \/ length r = 1%nat) rows2 ->
     (length rows2 = length rows \/ length rows2 = 1%nat) ->
     fop s (XOp (OIBin (BA a) i (AObj j)))
+| F_conv cv i c ro : nth_error s i = Some (OV c ro) -> cv = CIdent \/ cv = CCopy -> fop s (XOp (OConv cv i))
 | F_cmp m i x c ro : nth_error s i = Some (OV c ro) -> okarg s c x -> fop s (XOp (OBin (BC m) i x))
 | F_get i ix c ro : nth_error s i = Some (OV c ro) -> valid_index (length c) ix -> fop s (XOp (OGet i ix))
 | F_set_scalar i ix q c : nth_error s i = Some (OV c false) -> valid_index (length c) ix -> fop s (XOp (OSet i ix (AScal q)))
@@ -2799,9 +2806,15 @@ Proof.
                               | bo lo i j b b2 Hl Hn Ei Ej Hne | bo lo i j b b2 Hl Hn Ei Ej Hsh
                               | i c ro Ei | i c ro Ei | i c ro Ei | i c ro Ei | i c ro Ei | i j c cd rd Ei Ej Hl
                               | a i j rows ro rows2 ro2 Ha Ei Ej Hn Hsh | a i j rows rows2 ro2 n Ha Ei Ej Hji Hn Hl Hl2 Hsh
+                              | cv i c ro Ei Hcv
                               | m i x c ro Ei Hx | i ix c ro Ei Hv | i ix q c Ei Hv | i ix l c Ei Hv Hk Hl H2 | r i axis keep c ro Ei Hne Hax].
   13: { eapply step_sim_aabin2; eauto. }
   13: { eapply step_sim_aaibin2; eauto. }
+  13: { destruct (sim_nth _ _ _ _ Hs Ei) as (o' & Ei' & Hoo). destruct o' as [v ro'| | |]; cbn in Hoo; try contradiction.
+        destruct Hoo as [Hcv' <-].
+        unfold good, xstep. cbn [xstep_res step_res np_step]. unfold getobj. rewrite Ei, Ei'. cbn [bind].
+        destruct Hcv; subst cv; cbn; [auto|].
+        split; [apply sim_app; auto; cbn; auto|split; [reflexivity|cbn; auto]]. }
   13: { eapply step_sim_cmp; eauto. }
   13: { eapply step_sim_get; eauto. }
   13: { eapply step_sim_set_scalar; eauto. }
@@ -3282,4 +3295,22 @@ Proof.
   - intros c c' Hc Pc. destruct (vecF_set_scalar_refines c c' n q isb Hc Pc) as (r & r' & E & E' & Rr & Lr & _).
     exists r, r'. rewrite E. cbn. repeat split; auto. now rewrite Lr.
   - exists R, R'. repeat split; auto.
+Qed.
+
+(* ================================================================== Part 18: conversion helpers and copy constructors *)
+(* the identity conversions hand back the object; the copying ones append an equal object, and by C09_frame nothing
+   done to the copy can reach the original (objects of the store are disjoint values) *)
+Lemma conv_spec lg s i x : nth_error s i = Some x ->
+  xstep lg s (XOp (OConv CIdent i)) = (s, RSelf) /\
+  exists r, xstep lg s (XOp (OConv CCopy i)) = (s ++ [r], RNew r) /\
+            match x, r with
+            | OV c _, OV c' false => c' = c
+            | OL b, OL b' => b' = b
+            | OA rows _, OA rows' false => rows' = rows
+            | OB rows, OB rows' => rows' = rows
+            | _, _ => False
+            end.
+Proof.
+  intros Hi. unfold xstep. cbn [xstep_res step_res]. unfold getobj. rewrite Hi. cbn [bind]. split; auto.
+  destruct x; eexists; split; reflexivity.
 Qed.
